@@ -13,6 +13,7 @@ from __future__ import annotations
 
 import copy
 import json
+import os
 from typing import Any, Dict, List, Tuple
 
 from .. import core
@@ -35,11 +36,32 @@ _info: Dict[str, Any] = {}
 NQUERIES = 8
 
 
-def replay(rec: Dict[str, Any]) -> List[Tuple[str, Dict[str, Any], str]]:
+def normalise(sink: List[Dict[str, Any]]) -> List[Dict[str, Any]]:
+    """Hook events with object ids renamed to small integers (TLC integers are 32 bit)."""
+    ids: Dict[int, int] = {}
+    out = []
+    for e in sink:
+        if e["e"] == "cell-created":
+            out.append({"e": "created", "rid": e["rid"], "cell": ids.setdefault(e["cell"], len(ids) + 1), "fresh": bool(e["fresh"])})
+        elif e["e"] == "cell":
+            out.append({"e": "cell", "cell": ids.setdefault(e["cell"], len(ids) + 1), "owner": e["owner"], "reader": e["reader"], "hit": bool(e["hit"])})
+    return out
+
+
+def replay(rec: Dict[str, Any]) -> Dict[str, Any]:
+    """Replay one history; returns {'viol': divergences, 'events': hook events of the caching run}."""
+    viol = _replay(rec)
+    return {"viol": viol, "events": rec.pop("_events", [])}
+
+
+def _replay(rec: Dict[str, Any]) -> List[Tuple[str, Dict[str, Any], str]]:
     import jsonpath
+    from jsonpath import _verif
 
     text = untext(_info["queries"][rec["q"] - 1])
     for caching in (True, False):
+        if caching and _verif.ENABLED:
+            _verif.reset()
         env = jsonpath.JSONPathEnvironment(filter_caching=caching)
         docs = [untag(d["doc"]) for d in _info["docs"]]
         ctxs = [untag(c) for c in _info["ctxs"]]
@@ -97,6 +119,8 @@ def replay(rec: Dict[str, Any]) -> List[Tuple[str, Dict[str, Any], str]]:
                     disc = "compiled-query-modified"
             if disc:
                 break
+        if caching and _verif.ENABLED:
+            rec["_events"] = normalise(_verif.sink)
         if not disc and rec.get("_repeat"):
             first = [tuple(m.parts) for m in path.finditer(docs[0], filter_context=ctxs[0])]
             for _ in range(100):
@@ -137,13 +161,43 @@ def run(chk: Check, tier: str, seed: int) -> None:
     for i, x in enumerate(recs):
         if i % 40 == 0:
             x["_repeat"] = True
+    traces: List[Dict[str, Any]] = []
     for rec, res in zip(recs, core.pmap(replay, recs)):
         chk.traces += 2
         live = {h["it"] for h in rec["hist"] if h["act"] == "open"}
         if len(live) >= 2:
             chk.nontrivial.add(json.dumps(rec, sort_keys=True))
-        for sig, case, what in res:
+        if isinstance(res, list):  # abnormal (hang / crash)
+            for sig, case, what in res:
+                chk.violation(sig, case, what)
+            continue
+        for sig, case, what in res["viol"]:
             chk.violation(sig, case, what)
+        if res["events"]:
+            traces.append({"id": len(traces) + 1, "events": res["events"], "_rec": rec})
+    # ---- code -> specification: the hook events of every history validated by TLC (Trace_Cache.tla)
+    if traces:
+        sc = core.scratch()
+        jobs = []
+        nsh = 8
+        for k in range(nsh):
+            pth = sc / f"cache-trace-{os.getpid()}-{k}.ndjson"
+            with open(pth, "w") as f:
+                for t in traces[k::nsh]:
+                    f.write(json.dumps({"id": t["id"], "events": t["events"]}) + "\n")
+            jobs.append(("Trace_Cache", "SPECIFICATION Spec\nPROPERTY Verdicts\n", dict(env={"TRACE_FILE": str(pth)}, workers=2, timeout=3000)))
+        nev = sum(len(t["events"]) for t in traces)
+        for r in core.tlc_parallel(jobs, threads=8):
+            chk.add_tlc(r)
+            for x in r.records:
+                t = traces[x["reject"] - 1]
+                chk.violation(f"cache-discipline:{x['why']}|q{t['_rec']['q']}",
+                              {"query": untext(_info["queries"][t["_rec"]["q"] - 1]), "history": [(h["act"], h["it"], h["d"], h["c"]) for h in t["_rec"]["hist"]],
+                               "event_index": x["at"], "events": t["events"][: x["at"] + 1][-6:], "tagged": t["_rec"]}, x["why"])
+        chk.extra["hook_traces_validated_by_tlc"] = len(traces)
+        chk.extra["hook_events_validated"] = nev
+    else:
+        chk.extra["hook_traces_validated_by_tlc"] = 0
     for rec in recs[1000:1002] + recs[-2:]:
         chk.sample({"query": untext(_info["queries"][rec["q"] - 1]), "history": [(h["act"], h["it"], h["d"], h["c"]) for h in rec["hist"]]})
     chk.rule = ("behaviours of MC_Sessions.tla: open/next/close of up to 2 (random walks: 3) lazy iterators over 3 documents (two equal, one different root) x 2 "
@@ -157,6 +211,9 @@ def replay_file(case: Dict[str, Any]) -> int:
     r = tlc("MC_Sessions", CFG.format(ni=1, ml=0, shared="FALSE", q=1, next="Next", props=""))
     _info.update([x for x in r.records if "docs" in x][0])
     res = replay(case["case"]["tagged"])
-    for sig, c, what in res:
+    for sig, c, what in res["viol"]:
         print("DIVERGENCE", sig, c["query"], c["history"], "step", c["failed_at_step"])
-    return 1 if res else 0
+    bad = [e for e in res["events"] if (e["e"] == "created" and not e["fresh"]) or (e["e"] == "cell" and e["owner"] != e["reader"])]
+    for e in bad:
+        print("DIVERGENCE cache-discipline", e)
+    return 1 if res["viol"] or bad else 0
